@@ -364,6 +364,8 @@ fn stmt(rng: &mut Rng, a: &mut Asm, cfg: &StructCfg, depth: u32, budget: &mut i3
         27
     } else if rng.chance(1, 16) {
         28
+    } else if rng.chance(1, 14) {
+        29
     } else {
         choice
     };
@@ -830,6 +832,66 @@ fn stmt(rng: &mut Rng, a: &mut Asm, cfg: &StructCfg, depth: u32, budget: &mut i3
                     a.add(m, -1);
                 });
                 a.output(y);
+            }
+        }
+        29 => {
+            // a counted loop that accumulates a product of cells that themselves advance by a
+            // constant each iteration (sum of squares / of x*y): the per-iteration increment of
+            // the accumulator is not linear in the iteration number
+            let p = k + cfg.scratch + 1;
+            let (n, x, y, acc, t1, t2) = (p, p + 1, p + 2, p + 3, p + 4, p + 5);
+            for c in [n, x, y, acc, t1, t2] {
+                a.clear(c);
+            }
+            if rng.coin() {
+                a.add(n, rng.range(1, 8));
+            } else {
+                a.input(n);
+            }
+            match rng.below(3) {
+                0 => a.input(x),
+                _ => a.add(x, rng.range(0, 5)),
+            }
+            a.add(y, rng.range(0, 4));
+            let square = rng.chance(2, 3);
+            let sx = *rng.pick(&[1i64, 2, 2, -1, -2, 3, 4, 0]);
+            let sy = *rng.pick(&[0i64, 0, 1, 2, -1]);
+            let also_linear = rng.chance(1, 3);
+            a.while_(n, |a| {
+                // t1 = x (x kept)
+                a.while_(x, |a| {
+                    a.add(t1, 1);
+                    a.add(t2, 1);
+                    a.add(x, -1);
+                });
+                a.while_(t2, |a| {
+                    a.add(x, 1);
+                    a.add(t2, -1);
+                });
+                // acc += t1 * (x | y), consuming t1
+                let f = if square { x } else { y };
+                a.while_(t1, |a| {
+                    a.while_(f, |a| {
+                        a.add(acc, 1);
+                        a.add(t2, 1);
+                        a.add(f, -1);
+                    });
+                    a.while_(t2, |a| {
+                        a.add(f, 1);
+                        a.add(t2, -1);
+                    });
+                    a.add(t1, -1);
+                });
+                if also_linear {
+                    a.add(acc, 1);
+                }
+                a.add(x, sx);
+                a.add(y, sy);
+                a.add(n, -1);
+            });
+            a.output(acc);
+            if rng.coin() {
+                a.output(x);
             }
         }
         23 => {
@@ -1778,7 +1840,41 @@ pub fn explosive_w(rng: &mut Rng, width: u32) -> String {
     a.out
 }
 
+/// A tower that is entered all the way down, with sibling loops at the bottom and between
+/// the closing brackets (a loop at some depth is left, then another one at the same depth
+/// runs for several iterations). Every `]` of the tower finds a fresh zero cell.
+fn deep_tower_with_siblings(rng: &mut Rng) -> String {
+    let depth = match rng.below(4) {
+        0 => rng.urange(20, 200),
+        // around the sizes a fixed-capacity loop stack would have
+        1 => *rng.pick(&[16usize, 32, 64, 128, 256]) + rng.urange(0, 6) - 3,
+        2 => rng.urange(120, 140),
+        _ => rng.urange(200, 300),
+    };
+    let snippets = [">+[-]", ">++[.-]", ">+++[->+<]>[.-]", ">>++<+[-]>[.-]>", ">,[.-]", ">++[>++[.-]<-]", ">+[>+[>+[-]<-]<-]"];
+    let mut s = String::new();
+    for _ in 0..depth {
+        s.push_str("+[");
+    }
+    for _ in 0..rng.urange(1, 3) {
+        s.push_str(*rng.pick(&snippets[..]));
+    }
+    s.push('>');
+    for _ in 0..depth {
+        if rng.chance(1, 8) {
+            s.push_str(*rng.pick(&snippets[..]));
+            s.push('>');
+        }
+        s.push(']');
+    }
+    s.push_str("+.");
+    s
+}
+
 pub fn deep_nesting(rng: &mut Rng) -> String {
+    if rng.chance(2, 5) {
+        return deep_tower_with_siblings(rng);
+    }
     let depth = rng.urange(20, 200);
     let mut s = String::from(",");
     for i in 0..depth {
@@ -1804,11 +1900,36 @@ pub fn deep_nesting(rng: &mut Rng) -> String {
 
 pub fn salt(rng: &mut Rng, prog: &str) -> String {
     let salts = ["a", " ", "\n", "x y", "é", "→", "𝄞", "#", "(", "0", "日本"];
+    // one run in three salts with the ASCII neighbours of the commands instead: code points
+    // one off, one bit off and the other letter case (what a byte-wise scanner may confuse)
+    let near: Vec<char> = {
+        let cmds = b"+-<>,.[]";
+        let mut v = Vec::new();
+        for &c in cmds {
+            for d in [c.wrapping_sub(1), c + 1, c ^ 1, c ^ 2, c ^ 4, c ^ 0x20, c ^ 0x40] {
+                if (0x20..0x7f).contains(&d) && !cmds.contains(&d) {
+                    v.push(d as char);
+                }
+            }
+        }
+        v
+    };
+    let use_near = rng.chance(1, 3);
     let mut out = String::new();
     let p = rng.range(4, 30) as u64;
     for c in prog.chars() {
         if rng.below(p) == 0 {
-            out.push_str(*rng.pick(&salts[..]));
+            if use_near {
+                out.push(*rng.pick(&near[..]));
+            } else {
+                out.push_str(*rng.pick(&salts[..]));
+            }
+        }
+        // a neighbour right behind a bracket now and then
+        if use_near && (c == '[' || c == ']') && rng.chance(1, 3) {
+            out.push(c);
+            out.push(*rng.pick(&near[..]));
+            continue;
         }
         out.push(c);
     }
